@@ -42,6 +42,9 @@ def gen(rng, tier):
         ntr = rng.choice([1, 2, 3, 4])
         n = rng.randint(max(12, 4 * ntr), 120)
         lims = _lims(rng, n, ntr) if (ntr > 1 or rng.random() < 0.5) else None
+        if rng.random() < 0.2 and ntr >= 2:          # all trajectories equally long
+            L = rng.randint(4, 30)
+            n, lims = L * ntr, [L] * ntr
         tiny = kind == 'filter' and rng.random() < 0.15
         if tiny:            # files of one or two frames (a single row with several columns)
             n = rng.choice([1, 1, 2])
@@ -76,6 +79,18 @@ def gen(rng, tier):
             t1 = G.traj(rng, labs1, n, sticky=0.7)
             t2 = [labs1.index(v) + 1 if rng.random() < 0.8 else rng.choice([4, 5, 6]) for v in t1]
             yield {'k': kind, 't1': t1, 't2': t2, 'method': rng.choice(['symmetric', 'directed'])}
+    for case in gen_long(rng, tier):
+        yield case
+
+
+def gen_long(rng, tier):
+    for _ in range(1 if tier == 'quick' else 3):      # a trajectory longer than 2^15 frames listed in the limits file
+        labs = rng.sample([0, 1, 2, 3], 3)
+        lens = [rng.randint(20, 60), rng.choice([32768, 33000, 40000]), rng.randint(20, 60)]
+        traj = []
+        for Ln in lens:
+            traj += G.traj(rng, labs, Ln, sticky=0.9)
+        yield {'k': 'coring', 'traj': traj, 'lims': lens, 'tcor': 3, 'prelims': None}
 
 
 def corpus():
@@ -175,7 +190,7 @@ def requests(case):
         for L in lims:
             parts.append(case['traj'][a:a + L])
             a += L
-        return [[501] + C.enested(parts) + [case['tcor']] + C.ebool(True)]
+        return [[501 if len(case['traj']) <= 4000 else 503] + C.enested(parts) + [case['tcor']] + C.ebool(True)]
     if case['k'] == 'sim':
         return [[1301] + C.enested([case['t1']]) + C.enested([case['t2']]) + [0 if case['method'] == 'symmetric' else 1]]
     return []
